@@ -176,6 +176,10 @@ func (p *projector) ty(t *sysl.Type) lazy {
 		return func(*nameTable) string { return "(SNoType false)" }
 	}
 	opt := common.GBool(t.GetOpt())
+	if t.Type == nil {
+		// a Type without any type: what the parser builds for `?status=Status` (no case of MapType's switch matches)
+		return func(*nameTable) string { return "(SUntyped " + opt + ")" }
+	}
 	switch x := t.Type.(type) {
 	case *sysl.Type_NoType_:
 		return func(*nameTable) string { return "(SNoType " + opt + ")" }
@@ -337,6 +341,83 @@ func (p *projector) simpleRet(text string) lazy {
 	return func(nt *nameTable) string { return fmt.Sprintf("(RPlain %s %s)", nt.id(text), coqString(text)) }
 }
 
+// the statement tree of an endpoint, as far as return statements are concerned: StRet for a return statement, StNest <oneof
+// case> for a statement with a body (the statements of all choices of a one-of, in order), StLeaf for anything else
+func (p *projector) stmts(sts []*sysl.Statement) []lazy {
+	var out []lazy
+	nest := func(kind string, body []*sysl.Statement) lazy {
+		inner := p.stmts(body)
+		return func(nt *nameTable) string {
+			var ss []string
+			for _, x := range inner {
+				ss = append(ss, x(nt))
+			}
+			return fmt.Sprintf("(StNest %s %s)", coqString(kind), common.GList(ss))
+		}
+	}
+	for _, st := range sts {
+		switch x := st.GetStmt().(type) {
+		case *sysl.Statement_Ret:
+			if r := p.ret(x.Ret); r != nil {
+				out = append(out, r)
+			}
+		case *sysl.Statement_Cond:
+			out = append(out, nest("Cond", x.Cond.GetStmt()))
+		case *sysl.Statement_Loop:
+			out = append(out, nest("Loop", x.Loop.GetStmt()))
+		case *sysl.Statement_LoopN:
+			out = append(out, nest("LoopN", x.LoopN.GetStmt()))
+		case *sysl.Statement_Foreach:
+			out = append(out, nest("Foreach", x.Foreach.GetStmt()))
+		case *sysl.Statement_Alt:
+			var all []*sysl.Statement
+			for _, ch := range x.Alt.GetChoice() {
+				all = append(all, ch.GetStmt()...)
+			}
+			out = append(out, nest("Alt", all))
+		case *sysl.Statement_Group:
+			out = append(out, nest("Group", x.Group.GetStmt()))
+		default:
+			out = append(out, func(*nameTable) string { return "StLeaf" })
+		}
+	}
+	return out
+}
+
+func (p *projector) ret(ret *sysl.Return) lazy {
+	payload := ret.GetPayload()
+	name, tyText, bare := payload, payload, true
+	if strings.Contains(payload, "<:") {
+		parts := strings.Split(payload, " <: ")
+		if len(parts) < 2 {
+			p.unsupported = "return payload with '<:' but without ' <: '"
+			return nil
+		}
+		name, tyText, bare = parts[0], parts[1], false
+	}
+	p.n(name)
+	var shape lazy
+	switch {
+	case strings.Contains(tyText, "sequence of "):
+		s := p.simpleRet(strings.Replace(tyText, "sequence of ", "", 1))
+		shape = func(nt *nameTable) string { return "(RSeqOf " + s(nt) + ")" }
+	case strings.Contains(tyText, "set of "):
+		s := p.simpleRet(strings.Replace(tyText, "set of ", "", 1))
+		shape = func(nt *nameTable) string { return "(RSetOf " + s(nt) + ")" }
+	default:
+		s := p.simpleRet(tyText)
+		shape = func(nt *nameTable) string { return "(RSimple " + s(nt) + ")" }
+	}
+	atoi := "None"
+	if v, err := strconv.Atoi(name); err == nil {
+		atoi = "(Some " + common.GZ(int64(v)) + ")"
+	}
+	isOK := common.GBool(name == "ok")
+	return func(nt *nameTable) string {
+		return fmt.Sprintf("(StRet (RT %s %s %s %s %s))", common.GBool(bare), nt.id(name), isOK, atoi, shape(nt))
+	}
+}
+
 func (p *projector) endpoint(key string, ep *sysl.Endpoint) lazy {
 	toks := strings.Split(key, " ")
 	var keyTerm lazy
@@ -360,43 +441,7 @@ func (p *projector) endpoint(key string, ep *sysl.Endpoint) lazy {
 		n, t := p.n(q.GetName()), p.ty(q.GetType())
 		url = append(url, func(nt *nameTable) string { return fmt.Sprintf("(QP %s %s)", nt.id(n), t(nt)) })
 	}
-	for _, st := range ep.GetStmt() {
-		ret := st.GetRet()
-		if ret == nil {
-			continue
-		}
-		payload := ret.GetPayload()
-		name, tyText, bare := payload, payload, true
-		if strings.Contains(payload, "<:") {
-			parts := strings.Split(payload, " <: ")
-			if len(parts) < 2 {
-				p.unsupported = "return payload with '<:' but without ' <: '"
-				continue
-			}
-			name, tyText, bare = parts[0], parts[1], false
-		}
-		p.n(name)
-		var shape lazy
-		switch {
-		case strings.Contains(tyText, "sequence of "):
-			s := p.simpleRet(strings.Replace(tyText, "sequence of ", "", 1))
-			shape = func(nt *nameTable) string { return "(RSeqOf " + s(nt) + ")" }
-		case strings.Contains(tyText, "set of "):
-			s := p.simpleRet(strings.Replace(tyText, "set of ", "", 1))
-			shape = func(nt *nameTable) string { return "(RSetOf " + s(nt) + ")" }
-		default:
-			s := p.simpleRet(tyText)
-			shape = func(nt *nameTable) string { return "(RSimple " + s(nt) + ")" }
-		}
-		atoi := "None"
-		if v, err := strconv.Atoi(name); err == nil {
-			atoi = "(Some " + common.GZ(int64(v)) + ")"
-		}
-		isOK := common.GBool(name == "ok")
-		rets = append(rets, func(nt *nameTable) string {
-			return fmt.Sprintf("(RT %s %s %s %s %s)", common.GBool(bare), nt.id(name), isOK, atoi, shape(nt))
-		})
-	}
+	rets = p.stmts(ep.GetStmt())
 	return func(nt *nameTable) string {
 		l := func(ls []lazy) string {
 			var s []string
